@@ -11,6 +11,9 @@ SUITES = {
     "rel_zst":     ("random", "zst",   [],                    "release", (6, 30),   (150, 60)),
     "rel_heap":    ("random", "heap",  [],                    "release", (12, 60), (200, 200)),
     "rel_plain":   ("random", "plain", [],                    "release", (12, 60), (200, 200)),
+    # elements larger than 128 bytes (size_of-dependent paths; same reference semantics as plain)
+    "core_fat":    ("random", "fat",   [],                    "release", (6, 30),  (200, 200)),
+    "tomb_fat":    ("tomb",   "fat",   [],                    "debug",   (8, 32),   (0, 0)),
     "two_heap":    ("random", "heap",  ["--two"],             "debug",   (12, 60), (200, 200)),
     "two_plain_rel": ("random", "plain", ["--two"],           "release", (12, 60), (200, 200)),
     "set_heap":    ("random", "heap",  ["--set"],             "debug",   (9, 48),   (200, 200)),
@@ -51,6 +54,13 @@ SUITES = {
     # runs = behaviours, events = depth
     "sim_plain":   ("sim",    "plain", [],                    "debug",   (30, 300), (45, 60)),
     "sim_heap":    ("sim",    "heap",  [],                    "release", (30, 300), (45, 60)),
+    # phase x operation matrix (deterministic): 11 structural phases x 66 map / 44 set operations, each pair
+    # once per full matrix (726 / 484 runs); further matrices use other hashers and table sizes
+    "mx_heap":     ("matrix", "heap",  [],                    "debug",   (726, 2904), (0, 0)),
+    "mx_plain_rel": ("matrix", "plain", [],                   "release", (726, 2178), (0, 0)),
+    "mx_set":      ("matrix", "heap",  ["--set"],             "debug",   (484, 1452), (0, 0)),
+    "mx_zst":      ("matrix", "zst",   [],                    "debug",   (264, 264), (0, 0)),
+    "mx_zst_set":  ("matrix", "zst",   ["--set"],             "release", (176, 176), (0, 0)),
     "entry_heap":  ("random", "heap",  ["--entry"],           "debug",   (12, 60), (200, 200)),
     "entry_plain": ("random", "plain", ["--entry"],           "release", (12, 60), (200, 200)),
     "defects":     ("scripts", None,   [],                    "both",    (1, 1),    (0, 0)),
@@ -80,6 +90,7 @@ MC_DEPS = {
     "CloneFrom": ["MCCloneFrom.tla"],
     "CursorZst": ["MCCursor.tla"],
     "Entry": ["Hashbrown.tla", "Griddle.tla", "GriddleCount.tla", "MCGriddle.tla", "MCEntry.tla"],
+    "Iters": ["Hashbrown.tla", "Griddle.tla", "GriddleCount.tla", "MCGriddle.tla", "MCIters.tla"],
     "Overflow": ["Hashbrown.tla", "GriddleCount.tla", "MCCount.tla"],
     "OverflowDbg": ["Hashbrown.tla", "GriddleCount.tla", "MCCount.tla"],
 }
@@ -93,6 +104,12 @@ MC = {
     "Iter": {
         "quick": ("MCIter", "MCIter", 4, 3600),
         "thorough": ("MCIter", "MCIter5", 8, 3600),
+    },
+    # C08: RawIter / RawIntoIter / RawDrain as processes started in every reachable state: each element once,
+    # exact size_hint at every step, None only at the end and forever after
+    "Iters": {
+        "quick": ("MCIters", "MCIters", 4, 3600),
+        "thorough": ("MCIters", "MCIters5", 8, 3600),
     },
     # C12: entry / raw-entry handles as processes holding (table, bucket) across accessor calls; every
     # accessor in every reachable state of the two-table model, refinement to RefMap and GriddleCount
@@ -155,27 +172,27 @@ MC = {
 ALL_MAP = ["core_heap", "core_plain", "core_zst", "rel_heap", "defects"]
 
 PROPS = {
-    "C01": dict(suites=["entry_heap", "entry_plain", "sim_plain", "sim_heap", "tomb_plain", "tomb_heap", "core_heap", "core_plain", "core_zst", "rel_heap", "rel_plain", "defects"], mc=["Small", "CountR8"]),
-    "C02": dict(suites=["sim_plain", "sim_heap", "big_plain", "big_heap", "big_collide", "tomb_plain", "tomb_heap", "core_plain", "rel_plain", "core_heap", "defects", "repo_tests"], mc=["CountR8", "CountR4"]),
-    "C03": dict(suites=["sim_plain", "sim_heap", "big_plain", "big_heap", "big_collide", "tomb_plain", "tomb_heap", "core_plain", "core_heap", "rel_plain", "set_heap", "defects", "repo_tests"], mc=["Small", "CountR8"]),
-    "C04": dict(suites=["sim_plain", "sim_heap", "big_plain", "big_heap", "big_collide", "tomb_plain", "tomb_heap", "core_plain", "rel_plain", "limits_dbg", "limits_rel", "two_heap", "defects", "repo_tests"], mc=["Small", "CountR8", "CountR4", "CountR8big"], apalache=True),
-    "C05": dict(suites=["sim_plain", "sim_heap", "fault_heap", "fault_heap_rel", "tomb_plain", "tomb_heap", "core_heap", "rel_heap", "core_zst", "set_heap", "set_zst", "two_heap", "two_plain_rel", "defects"], mc=["Cursor", "CursorZst", "Iter", "Small", "CountR8"], asan=["two_heap", "two_plain_rel", "core_heap", "fault_heap", "set_heap", "tomb_heap", "defects"], miri=True),
+    "C01": dict(suites=["mx_heap", "mx_plain_rel", "mx_zst", "core_fat", "tomb_fat", "entry_heap", "entry_plain", "sim_plain", "sim_heap", "tomb_plain", "tomb_heap", "core_heap", "core_plain", "core_zst", "rel_heap", "rel_plain", "defects"], mc=["Small", "CountR8"]),
+    "C02": dict(suites=["core_fat", "tomb_fat", "sim_plain", "sim_heap", "big_plain", "big_heap", "big_collide", "tomb_plain", "tomb_heap", "core_plain", "rel_plain", "core_heap", "defects", "repo_tests"], mc=["CountR8", "CountR4"]),
+    "C03": dict(suites=["mx_plain_rel", "core_fat", "tomb_fat", "sim_plain", "sim_heap", "big_plain", "big_heap", "big_collide", "tomb_plain", "tomb_heap", "core_plain", "core_heap", "rel_plain", "set_heap", "defects", "repo_tests"], mc=["Small", "CountR8"]),
+    "C04": dict(suites=["core_fat", "tomb_fat", "sim_plain", "sim_heap", "big_plain", "big_heap", "big_collide", "tomb_plain", "tomb_heap", "core_plain", "rel_plain", "limits_dbg", "limits_rel", "two_heap", "defects", "repo_tests"], mc=["Small", "CountR8", "CountR4", "CountR8big"], apalache=True),
+    "C05": dict(suites=["mx_heap", "mx_zst", "mx_zst_set", "sim_plain", "sim_heap", "fault_heap", "fault_heap_rel", "tomb_plain", "tomb_heap", "core_heap", "rel_heap", "core_zst", "set_heap", "set_zst", "two_heap", "two_plain_rel", "defects"], mc=["Cursor", "CursorZst", "Iter", "Small", "CountR8"], asan=["mx_heap", "two_heap", "two_plain_rel", "core_heap", "fault_heap", "set_heap", "tomb_heap", "defects"], miri=True),
     # (zero-sized elements are drop-counted: live objects = elements held, after every call)
-    "C06": dict(suites=["entry_heap", "entry_plain", "core_heap", "rel_heap", "two_heap", "set_heap", "set_two", "core_zst", "rel_zst", "set_zst", "defects"], mc=["Small"]),
+    "C06": dict(suites=["mx_heap", "mx_zst", "mx_set", "entry_heap", "entry_plain", "core_heap", "rel_heap", "two_heap", "set_heap", "set_two", "core_zst", "rel_zst", "set_zst", "defects"], mc=["Small"]),
     # after an injected panic the semantic/safety monitors are part of "the map stays memory-safe and
     # self-consistent, later operations behave normally": their failures after a fault count for C07
     # (unless the fault-free control segments fail too: then the panic is not to blame)
     "C07": dict(suites=["fault_heap", "fault_heap_rel", "fault_plain", "fault_two", "fault_set", "fault_zst", "defects"], mc=["Fault", "CloneFrom"],
                 after_fault=True),
     # (entry suites: iteration right after entry / raw-entry calls on old-table elements next to the move cursor)
-    "C08": dict(suites=["core_heap", "rel_heap", "core_plain", "set_heap", "core_zst", "entry_heap", "entry_plain"], mc=["Small"]),
-    "C09": dict(suites=["core_heap", "rel_heap", "core_plain", "set_heap", "set_zst"], mc=["Iter", "Small"]),
+    "C08": dict(suites=["mx_heap", "mx_plain_rel", "mx_set", "mx_zst_set", "core_heap", "rel_heap", "core_plain", "set_heap", "core_zst", "entry_heap", "entry_plain"], mc=["Iters", "Small"]),
+    "C09": dict(suites=["mx_heap", "mx_set", "core_heap", "rel_heap", "core_plain", "set_heap", "set_zst"], mc=["Iter", "Iters", "Small"]),
     "C10": dict(suites=["sim_plain", "sim_heap", "limits_dbg", "limits_rel", "core_plain", "rel_plain", "set_heap", "defects", "repo_tests"], mc=["CountR8", "Overflow", "OverflowDbg"]),
     # a failed semantic monitor on a map that is the product of clone / clone_from in that run (a lookup
     # missing in the clone, wrong contents after a later call, ...) is C11's
-    "C11": dict(suites=["two_heap", "two_plain_rel", "set_two", "defects", "repo_tests"], mc=["CountR8", "Small", "CloneFrom"], on_clones=True),
-    "C12": dict(suites=["entry_heap", "entry_plain", "core_heap", "rel_heap", "core_plain", "core_zst", "defects"], mc=["Entry", "Small"]),
-    "C13": dict(suites=["set_heap", "set_two", "set_zst"], mc=["Small"]),
+    "C11": dict(suites=["mx_heap", "mx_set", "two_heap", "two_plain_rel", "set_two", "defects", "repo_tests"], mc=["CountR8", "Small", "CloneFrom"], on_clones=True),
+    "C12": dict(suites=["mx_heap", "mx_plain_rel", "entry_heap", "entry_plain", "core_heap", "rel_heap", "core_plain", "core_zst", "defects"], mc=["Entry", "Small"]),
+    "C13": dict(suites=["mx_set", "mx_zst_set", "set_heap", "set_two", "set_zst"], mc=["Small"]),
     "C14": dict(suites=["meta_heap", "meta_plain", "meta_set", "meta_zst"], mc=["Small"],
                 monitors=["eq_is_content_equality", "debug_shows_contents", "lookup_result", "set_contains_result",
                           "iter_yields_each_once", "iter_exact_len", "iter_complete", "len_is_sum", "contents"]),
